@@ -9,8 +9,9 @@ barrier token is in a cell or pending.
 
 `Tok.cover`: during and after the winner's final pass, every scope whose cell still holds a barrier token is
 *covered*: during the pass by a snapshot entry the pass has not visited yet (which the range loop must still visit:
-`finalPassComplete`) or by a thread that is about to swap that cell; after the pass only by such a thread — and such
-a thread holds the shard's read lock, so there is none when the purge takes the write lock.
+`finalPassComplete`) or by a thread that is about to swap that cell; after the pass (the winner is about to purge)
+only by such a thread — and such a thread holds the shard's read lock, so there is none when the purge takes the
+write lock.  The final `Flush` comes after the purge: by then no cell holds a barrier token (`purgedCold`).
 -/
 namespace Tally.ScopeLife
 open Tally.Registry (Token ScopeS Pc pcOf scopeOf lookup isPassPc step_pcOf_ne actor Inv shadow NoPre allPending
@@ -32,7 +33,6 @@ def Unvisited (s : State) (w sid : Nat) : Prop :=
 def Cov (s : State) (w sid : Nat) : Prop :=
   match s.closers w with
   | .pass => Unvisited s w sid ∨ Swapper s.reg sid
-  | .flushPc => Swapper s.reg sid
   | .purgePc => Swapper s.reg sid
   | _ => True
 
